@@ -9,13 +9,6 @@
 // ---------------------------------------------------------------------------------------------
 
 // ---- the domain of the statement ---------------------------------------------------------------------
-/// a valid field name: key characters only, not starting with '-' or '#'
-pub open spec fn valid_name(n: Seq<char>) -> bool {
-    &&& n.len() > 0
-    &&& is_initial_key_char_s(n[0]) && n[0] != '#'
-    &&& forall|i: int| 0 <= i < n.len() ==> is_key_char_s(#[trigger] n[i])
-}
-pub open spec fn no_nl(l: Seq<char>) -> bool { forall|i: int| 0 <= i < l.len() ==> !is_newline_s(#[trigger] l[i]) }
 /// the first line of a value: may be empty, no leading whitespace
 pub open spec fn canon_first(l: Seq<char>) -> bool { no_nl(l) && (l.len() > 0 ==> !is_indent_s(l[0])) }
 /// a further line: non-empty, no leading whitespace
@@ -50,12 +43,6 @@ pub open spec fn stmt_fields(fs: Seq<Field>) -> bool {
 pub open spec fn stmt_doc(ps: Seq<Paragraph>) -> bool {
     forall|i: int| 0 <= i < ps.len() ==> (#[trigger] ps[i]).fields@.len() > 0 && stmt_fields(ps[i].fields@)
 }
-
-// ---- lexer states ----------------------------------------------------------------------------------------
-pub open spec fn S0() -> LexState { LexState { sol: true, colon_seen: false, indented: false } }
-pub open spec fn SK() -> LexState { LexState { sol: false, colon_seen: false, indented: false } }
-pub open spec fn SV() -> LexState { LexState { sol: false, colon_seen: true, indented: false } }
-pub open spec fn SI() -> LexState { LexState { sol: true, colon_seen: false, indented: true } }
 
 // ---- token images ------------------------------------------------------------------------------------------
 pub open spec fn line_toks(l: Seq<char>) -> Seq<Tok> {
@@ -215,95 +202,7 @@ pub proof fn lemma_field_text_normal(name: Seq<char>, v: Seq<char>)
     }
 }
 
-// ---- lexing the printed text ----------------------------------------------------------------------------
-/// text a, lexed from state st, gives exactly toks and leaves state st2 — whatever follows
-pub open spec fn lexes(st: LexState, a: Seq<char>, toks: Seq<Tok>, st2: LexState) -> bool {
-    forall|b: Seq<char>| #[trigger] tokens_of(st, a + b) == toks + tokens_of(st2, b)
-}
-pub proof fn lemma_lexes_compose(st: LexState, a1: Seq<char>, t1: Seq<Tok>, st2: LexState, a2: Seq<char>, t2: Seq<Tok>, st3: LexState)
-    requires lexes(st, a1, t1, st2), lexes(st2, a2, t2, st3)
-    ensures lexes(st, a1 + a2, t1 + t2, st3)
-{
-    assert forall|b: Seq<char>| #[trigger] tokens_of(st, (a1 + a2) + b) == (t1 + t2) + tokens_of(st3, b) by {
-        assert((a1 + a2) + b =~= a1 + (a2 + b));
-        assert(tokens_of(st, a1 + (a2 + b)) == t1 + tokens_of(st2, a2 + b));
-        assert(tokens_of(st2, a2 + b) == t2 + tokens_of(st3, b));
-        assert((t1 + t2) + tokens_of(st3, b) =~= t1 + (t2 + tokens_of(st3, b)));
-    }
-}
-pub proof fn lemma_lexes_empty(st: LexState)
-    ensures lexes(st, Seq::empty(), Seq::empty(), st)
-{
-    assert forall|b: Seq<char>| #[trigger] tokens_of(st, Seq::<char>::empty() + b) == Seq::<Tok>::empty() + tokens_of(st, b) by {
-        assert(Seq::<char>::empty() + b =~= b);
-        assert(Seq::<Tok>::empty() + tokens_of(st, b) =~= tokens_of(st, b));
-    }
-}
-pub proof fn lemma_lex_nl(st: LexState, b: Seq<char>)
-    ensures tokens_of(st, lf() + b) == seq![(NEWLINE, lf())] + tokens_of(S0(), b)
-{
-    let s = lf() + b;
-    assert(s[0] == '\n');
-    assert(s.take(1) =~= lf());
-    assert(s.skip(1) =~= b);
-}
-pub proof fn lemma_lex_sp(st: LexState, r: Seq<char>)
-    requires r.len() > 0, !is_indent_s(r[0])
-    ensures tokens_of(st, sp() + r) == seq![(if st.sol { INDENT } else { WHITESPACE }, sp())]
-        + tokens_of(if st.sol { LexState { indented: true, ..st } } else { st }, r)
-{
-    broadcast use group_lex_runs;
-    let s = sp() + r;
-    assert(s[0] == ' ');
-    assert(s[1] == r[0]);
-    assert(is_indent_run(s, 1));
-    assert(s.take(1) =~= sp());
-    assert(s.skip(1) =~= r);
-}
-pub proof fn lemma_lex_value(st: LexState, l: Seq<char>, b: Seq<char>)
-    requires
-        l.len() > 0, no_nl(l), !is_indent_s(l[0]),
-        !(l[0] == ':' && !st.colon_seen && !st.indented),
-        !(l[0] == '#' && st.sol),
-        !(is_initial_key_char_s(l[0]) && st.sol && !st.indented),
-        !st.sol || st.indented,
-    ensures tokens_of(st, l + (lf() + b)) == seq![(VALUE, l)] + tokens_of(st, lf() + b)
-{
-    broadcast use group_lex_runs;
-    let s = l + (lf() + b);
-    let n = l.len() as int;
-    assert(s[0] == l[0]);
-    assert(!is_newline_s(l[0]));
-    assert(s[n] == '\n');
-    assert forall|j: int| 0 <= j < n implies !is_newline_s(#[trigger] s[j]) by { assert(s[j] == l[j]); }
-    assert(is_not_nl_run(s, n));
-    assert(s.take(n) =~= l);
-    assert(s.skip(n) =~= lf() + b);
-}
-/// "Name:" at the start of a line
-pub proof fn lemma_lex_key_colon(name: Seq<char>)
-    requires valid_name(name)
-    ensures lexes(S0(), name + colon(), seq![(KEY, name), (COLON, colon())], SV())
-{
-    broadcast use group_lex_runs;
-    assert forall|b: Seq<char>| #[trigger] tokens_of(S0(), (name + colon()) + b) == seq![(KEY, name), (COLON, colon())] + tokens_of(SV(), b) by {
-        let s = (name + colon()) + b;
-        let n = name.len() as int;
-        assert(s[0] == name[0]);
-        assert(s[n] == ':');
-        assert forall|j: int| 0 <= j < n implies is_key_char_s(#[trigger] s[j]) by { assert(s[j] == name[j]); }
-        assert(is_key_run(s, n));
-        assert(s.take(n) =~= name);
-        let s1 = s.skip(n);
-        assert(s1 =~= colon() + b);
-        assert(tokens_of(S0(), s) == seq![(KEY, name)] + tokens_of(SK(), s1));
-        assert(s1[0] == ':');
-        assert(s1.take(1) =~= colon());
-        assert(s1.skip(1) =~= b);
-        assert(tokens_of(SK(), s1) == seq![(COLON, colon())] + tokens_of(SV(), b));
-        assert(seq![(KEY, name)] + (seq![(COLON, colon())] + tokens_of(SV(), b)) =~= seq![(KEY, name), (COLON, colon())] + tokens_of(SV(), b));
-    }
-}
+// ---- lexing the printed text (generic lemmas: ../deb822/lex_lemmas.rs) ------------------------------------
 /// " line\n" right after "Name:"
 pub proof fn lemma_lex_first_line(l: Seq<char>)
     requires canon_first(l)
